@@ -225,10 +225,21 @@ def rule(rng, balanced=True):
         edits = ['increase formal charge (%s)' % labels[0], 'decrease formal charge (%s)' % labels[0]]
     if not balanced:
         k = rng.random()
-        if k < 0.5 and len(edits) > 1:
+        if k < 0.4 and len(edits) > 1:
             del edits[rng.randrange(len(edits))]
-        elif k < 0.8:
+        elif k < 0.6:
             edits.append(rng.choice(['increase number of radical (%s)', 'decrease formal charge (%s)', 'increase formal charge (%s)']) % rng.choice(labels))
+        elif k < 0.85 and n >= 2:
+            # per-atom imbalances that cancel over the whole rule: an electron "hops" between two labels
+            i, j = rng.sample(range(n), 2)
+            rad = [e for e in range(len(edits)) if 'number of radical (%s)' % labels[i] in edits[e]]
+            if rad and rng.random() < 0.5:
+                e = rng.choice(rad)
+                edits[e] = edits[e].replace('(%s)' % labels[i], '(%s)' % labels[j])
+            elif rng.random() < 0.7:
+                edits += ['increase number of radical (%s)' % labels[i], 'decrease number of radical (%s)' % labels[j]]
+            else:
+                edits += ['increase formal charge (%s)' % labels[i], 'decrease formal charge (%s)' % labels[j]]
         else:
             edits.append('break bond (%s,%s)' % (labels[0], 'nolabel'))
     rng.shuffle(edits) if rng.random() < 0.3 else None
